@@ -3,6 +3,11 @@ package props
 import (
 	"bytes"
 	"fmt"
+	"io"
+	"os"
+	"os/exec"
+	"path/filepath"
+	"strings"
 
 	"verif/core"
 	"verif/ref"
@@ -30,10 +35,18 @@ type C17Case struct {
 	// The bound grows by PreLen (the run itself may cost up to its own length).
 	PreByte int `json:",omitempty"`
 	PreLen  int `json:",omitempty"`
+	// Feed > 0: the input is handed over by io.Copy from a bare reader (feedOf in envkinds.go: short
+	// reads, 1000-byte reads, 1-byte reads), not by Write calls
+	Feed int `json:",omitempty"`
 }
 
 func init() {
 	register(&Check{ID: "C17", Level: "exploration", Run: runC17})
+	scenario("C17", "gxz", func(r *core.Run, c core.Case) {
+		var p C17Gxz
+		params(c, &p)
+		c17GxzCase(r, p, os.Getenv("VERIF_GXZ"))
+	})
 	scenario("C17", "ratio", func(r *core.Run, c core.Case) {
 		var p C17Case
 		params(c, &p)
@@ -58,6 +71,27 @@ func c17Case(r *core.Run, p C17Case) {
 	blocks := 1
 	desc := fmt.Sprintf("%+v", p)
 	pan := core.Guard(func() {
+		if p.Feed > 0 {
+			var sb sinkBuf
+			var w io.WriteCloser
+			var err error
+			if p.API == "xz" {
+				w, err = XZCfg{Props: true, LC: p.Props[0], LP: p.Props[1], PB: p.Props[2], DictCap: p.DictCap, BufSize: p.BufSize, Matcher: p.Matcher}.open(&sb)
+			} else {
+				w, err = L2Cfg{Props: true, LC: p.Props[0], LP: p.Props[1], PB: p.Props[2], DictCap: p.DictCap, BufSize: p.BufSize, Matcher: p.Matcher}.open(&sb)
+			}
+			if err != nil {
+				panic(err)
+			}
+			if n, err := feedOf(w, data, p.Feed); err != nil || n != int64(len(data)) {
+				panic(fmt.Sprintf("io.Copy into the writer: n=%d err=%v", n, err))
+			}
+			if err := w.Close(); err != nil {
+				panic(err)
+			}
+			outLen = len(sb.b)
+			return
+		}
 		if p.API == "xz" {
 			cfg := XZCfg{Props: true, LC: p.Props[0], LP: p.Props[1], PB: p.Props[2], DictCap: p.DictCap, BufSize: p.BufSize, Matcher: p.Matcher}
 			var parts []int
@@ -124,9 +158,108 @@ func c17Case(r *core.Run, p C17Case) {
 	r.Nontrivial(core.Hash(p.Family, p.Matcher, p.N, p.DictCap, outLen*20/(n+1)))
 }
 
+// C17Gxz is one run of the gxz tool judged by the same three bounds: the operand is a regular file, a
+// symbolic link to it (compressed with -f) or standard input (-c); the preset's dictionary (256 KiB for
+// -0, 8 MiB by default) holds the whole input.
+type C17Gxz struct {
+	Family  string // "run", "xx", "random"
+	Format  string // "xz" or "lzma"
+	Preset  string // "" (default) or "-0"
+	Operand string // "file", "symlink", "stdin"
+}
+
+func c17GxzCase(r *core.Run, p C17Gxz, gxz string) {
+	cs := core.MkCase("C17", "gxz", p)
+	var data []byte
+	var bound int
+	switch p.Family {
+	case "run":
+		data = bytes.Repeat([]byte{'A'}, 1<<20)
+		bound = len(data)/500 + 192
+	case "xx":
+		x := randBytes(71, 200<<10)
+		data = append(append([]byte(nil), x...), x...)
+		bound = len(x)*115/100 + 192
+	case "random":
+		data = randBytes(72, 300<<10)
+		bound = len(data) + len(data)/500 + 192
+	}
+	dir, err := os.MkdirTemp("", "verif-c17-")
+	if err != nil {
+		panic(err)
+	}
+	defer os.RemoveAll(dir)
+	if err := os.WriteFile(filepath.Join(dir, "f"), data, 0o644); err != nil {
+		panic(err)
+	}
+	argv := []string{"-k", "-F", p.Format}
+	if p.Preset != "" {
+		argv = append(argv, p.Preset)
+	}
+	cmd := exec.Command(gxz)
+	cmd.Dir = dir
+	var so, se bytes.Buffer
+	cmd.Stdout, cmd.Stderr = &so, &se
+	outName := ""
+	switch p.Operand {
+	case "file":
+		argv = append(argv, "f")
+		outName = "f." + p.Format
+	case "symlink":
+		if err := os.Symlink("f", filepath.Join(dir, "l")); err != nil {
+			panic(err)
+		}
+		argv = append(argv, "-f", "l")
+		outName = "l." + p.Format
+	case "stdin":
+		argv = append(argv, "-c")
+		cmd.Stdin = bytes.NewReader(data)
+	}
+	cmd.Args = append(cmd.Args, argv...)
+	desc := fmt.Sprintf("gxz %s with a %d-byte input (%s), operand: %s", strings.Join(argv, " "), len(data), p.Family, p.Operand)
+	if err := cmd.Run(); err != nil {
+		r.Violate(cs, "gxz fails "+p.Operand, desc, err.Error()+": "+firstLine(se.String()), "exit status 0 (see C15)")
+		return
+	}
+	out := so.Bytes()
+	if outName != "" {
+		out, err = os.ReadFile(filepath.Join(dir, outName))
+		if err != nil {
+			r.Violate(cs, "gxz output missing "+p.Operand, desc, err.Error(), outName)
+			return
+		}
+	}
+	if dec, derr := decodeAs(p.Format, out); derr != nil || !bytes.Equal(dec, data) {
+		r.Violate(cs, "gxz output does not decode "+p.Operand, desc, fmt.Sprint(derr), "the input (see C15)")
+		return
+	}
+	if len(out) > bound {
+		r.Violate(cs, fmt.Sprintf("gxz %s ratio operand=%s", map[string]string{"run": "run-of-equal-bytes", "xx": "X‖X", "random": "incompressible-expansion"}[p.Family], p.Operand), desc, fmt.Sprintf("%d bytes of output for %d bytes of input", len(out), len(data)), fmt.Sprintf("at most %d bytes", bound))
+	}
+	r.Eval(core.Hash("gxz", p, len(out)))
+	r.Nontrivial(core.Hash("gxz", p.Family, p.Format, p.Operand, len(out)*20/(len(data)+1)))
+}
+
+func c17GxzCases() []C17Gxz {
+	var cs []C17Gxz
+	for _, fam := range []string{"run", "xx", "random"} {
+		for _, f := range []string{"xz", "lzma"} {
+			if fam == "random" && f == "lzma" {
+				continue // the classic format has no stored chunks: the expansion bound is stated for xz / LZMA2
+			}
+			for _, ps := range []string{"", "-0"} {
+				for _, op := range []string{"file", "symlink", "stdin"} {
+					cs = append(cs, C17Gxz{Family: fam, Format: f, Preset: ps, Operand: op})
+				}
+			}
+		}
+	}
+	return cs
+}
+
 func runC17(r *core.Run) {
 	th := thorough(r)
-	r.Rule = "finite grid, enumerated completely: runs of every byte value 0..255 x lengths x both matchers; X‖X for fixed generator seeds x |X| x matchers x DictCap (|X| <= DictCap), also behind a run of 200 / 3000 equal bytes (00, 61, 80, FF) written by an earlier Write; incompressible data seeds x lengths incl. 64 KiB / 2 MiB chunk limits x DictCap>=64KiB x BufSize x lc/lp/pb corners, xz and raw LZMA2; a sub-grid with the input handed over in Write calls of 250 / 700 / 4096 bytes; oracle = the three numeric bounds of the statement with the 128 B/stream + 64 B/block allowance. non-trivial = distinct (family, matcher, size, dictionary, ratio bucket)"
+	r.Rule = "finite grid, enumerated completely: runs of every byte value 0..255 x lengths x both matchers; X‖X for fixed generator seeds x |X| x matchers x DictCap (|X| <= DictCap), also behind a run of 200 / 3000 equal bytes (00, 61, 80, FF) written by an earlier Write; incompressible data seeds x lengths incl. 64 KiB / 2 MiB chunk limits x DictCap>=64KiB x BufSize x lc/lp/pb corners, xz and raw LZMA2; a sub-grid with the input handed over in Write calls of 250 / 700 / 4096 bytes and by io.Copy from bare readers with half / 1000-byte / 1-byte reads; the gxz tool with default and -0 preset on a file / a symbolic link (-f) / standard input; oracle = the three numeric bounds of the statement with the 128 B/stream + 64 B/block allowance. non-trivial = distinct (family, matcher, size, dictionary, ratio bucket)"
 	var cases []C17Case
 	def := [3]int{3, 0, 2}
 	// runs
@@ -185,6 +318,15 @@ func runC17(r *core.Run) {
 					cases = append(cases, C17Case{Family: "xx", API: api, Seed: 40 + si, N: n, DictCap: 1 << 16, Matcher: m, Props: def, PreByte: pb, PreLen: pl})
 				}
 			}
+		}
+	}
+	// the input handed over by io.Copy from bare readers with short reads (uses a ReadFrom method of
+	// the writer when there is one)
+	for _, feed := range []int{3, 4, 5} {
+		for ai, api := range []string{"xz", "lzma2"} {
+			cases = append(cases, C17Case{Family: "run", API: api, Byte: 0x41 + ai, N: 32768, DictCap: 1 << 16, Props: def, Feed: feed},
+				C17Case{Family: "xx", API: api, Seed: 50 + ai, N: 30000, DictCap: 1 << 16, Props: def, Feed: feed},
+				C17Case{Family: "random", API: api, Seed: 60 + ai, N: 66000, DictCap: 1 << 16, Props: def, Feed: feed})
 		}
 	}
 	// incompressible
@@ -271,5 +413,13 @@ func runC17(r *core.Run) {
 	r.Sample(cases[len(cases)/2])
 	r.Sample(cases[len(cases)-1])
 	r.Parallel(len(cases), "grid", func(i int) { c17Case(r, cases[i]) })
+	// the gxz tool on the same three kinds of input (its presets' dictionaries hold the whole input)
+	if gxz := os.Getenv("VERIF_GXZ"); gxz != "" {
+		gc := c17GxzCases()
+		r.Parallel(len(gc), "gxz", func(i int) { c17GxzCase(r, gc[i], gxz) })
+		r.Extra("gxz_runs", len(gc))
+	} else {
+		r.Note("gxz binary not available: tool-level cases skipped")
+	}
 	r.Assume("BinaryTree runs use a 4 KiB dictionary and lengths <= 65536 (quadratic matcher: cost bound)")
 }
